@@ -157,7 +157,7 @@ def run(ctx):
     ctx.states += a["mc"].distinct
     ctx.transitions += a["mc"].generated
     ctx.cov["mc_distinct"] = a["mc"].distinct
-    cases, cover = compose(ctx, a["gen"], ctx.pick(110, 2000))
+    cases, cover = compose(ctx, a["gen"], ctx.pick(110, 900))
     ctx.log("%d cases (%d covering), %d operations" % (len(cases), cover, sum(len(c["ops"]) for c in cases)))
     cp, op = ctx.path("focases.ndjson"), ctx.path("foobs.ndjson")
     with open(cp, "w") as fh:
@@ -189,7 +189,7 @@ def run(ctx):
         if e["e"] == "ping":
             what = "the protocol did not survive the previous operation: %s" % e["err"]
         elif e.get("blocked"):
-            what = "%s was still blocked after 5 s" % e["e"]
+            what = "%s was still blocked after the 8 s watchdog" % e["e"]
         else:
             what = "%s result is not what the reference semantics prescribes for this state: %s" % (e["e"], json.dumps(
                 {k: e[k] for k in ("items", "links", "p", "err", "res", "errs", "post") if k in e})[:700])
@@ -211,7 +211,7 @@ def run(ctx):
                     "patterns": sorted(pats)[:64]})
     ctx.sample({"fs": traces[0]["fs"], "ev": traces[0]["ev"][:3]})
     ctx.assumptions += [
-        "the check-then-open race inside handleOpen (lstat, then OpenFile) is not exercised: no program runs while the host operates",
+        "the check-then-open race inside handleOpen (lstat, then OpenFile) is not exercised: the API is serialized by the environment mutex and every process is killed before Execve returns, so no program runs while the host operates",
         "requests whose reply exceeds the 32 KiB frame (very long error texts) are answered with one error for the whole call; not generated",
         "a batch longer than 253 items may be refused as a whole (one SCM_RIGHTS message), the protocol must stay intact",
         "container init is root in its user namespace: a mode-000 regular file can be opened (refusal is reported as DRIFT)",
